@@ -345,7 +345,7 @@ def run_check(prop_id: str, tier: str, seed: int, jobs: int, budget_s: Optional[
         if not full.get("violation"):
             harness_errors.append("run %d: violation did not reproduce in the parent process" % i)
             continue
-        mini = Minimiser(prop, cls, budget=int(os.environ.get("VERIF_MINIMISE_EXECS", "250")))
+        mini = Minimiser(prop, cls, budget=int(os.environ.get("VERIF_MINIMISE_EXECS", str(getattr(prop, "MINIMISE_EXECS", 250)))))
         mplan, mout = mini.run(plan, full)
         mtrig = [t for t in mout["triggers"] if t in open_ids]
         if mtrig:
